@@ -109,7 +109,13 @@ func (a *Agent) Frames(id uuid.UUID) []*Frame {
 	a.mu.RLock()
 	defer a.mu.RUnlock()
 
-	return append([]*Frame(nil), a.frames[id]...)
+	// copies: the agent keeps filling in the frames it holds (under its lock) while callers read what they were given
+	frames := make([]*Frame, 0, len(a.frames[id]))
+	for _, f := range a.frames[id] {
+		frame := *f
+		frames = append(frames, &frame)
+	}
+	return frames
 }
 
 // Load registers a symbol and its associated hooks for inbound and outbound ports.
@@ -250,10 +256,11 @@ func (a *Agent) hooks(proc *process.Process, sym *symbol.Symbol, in *port.InPort
 		}
 
 		watchers := a.watchers
+		snapshot := *frame
 
 		a.mu.Unlock()
 
-		watchers.OnFrame(frame)
+		watchers.OnFrame(&snapshot)
 	})
 
 	outboundHook := packet.HookFunc(func(pck *packet.Packet) {
@@ -281,10 +288,11 @@ func (a *Agent) hooks(proc *process.Process, sym *symbol.Symbol, in *port.InPort
 		}
 
 		watchers := a.watchers
+		snapshot := *frame
 
 		a.mu.Unlock()
 
-		watchers.OnFrame(frame)
+		watchers.OnFrame(&snapshot)
 	})
 	return inboundHook, outboundHook
 }
